@@ -141,7 +141,9 @@ def run(res):
     # the same law in the Kang engine (RadiosityKang / PatchesKang): scene cases of C19 -- all orders and
     # the receiver response against the model, plus their independent oracles
     import props.C19 as C19
-    for r in fw.run_parallel(C19.scene_case, [dict(seed=res.seed + 5, idx=i, quick=True) for i in range(16 if quick else 160)]):
+    kspecs = [dict(seed=res.seed + 5, idx=i, quick=True, force=dict(att_pos=True, int_alpha=(i % 2 == 0)))
+              for i in range(16 if quick else 160)]
+    for r in fw.run_parallel(C19.scene_case, kspecs):
         res.absorb(r)
     res.rule = ("shoebox scenes, 1-3 bands with m in [0.005,0.3] Np/m, order 1-2; the attenuated run is compared "
                 "with the model and, leg by leg, with the m = 0 run and with a run where attenuation was never set; "
